@@ -126,6 +126,38 @@ class HvPeriodic(Logic):
         self.q.prepare(self.count + self.bias)
 
 
+class HvFlagState(Logic):
+    """a state attribute created as a bool and later assigned a multi-bit value (Python keeps the integer; truth test = non-zero)"""
+    def __init__(self, parent, name, req, q):
+        super().__init__(parent, name)
+        self.req = self.addIn('req', req)
+        self.q = self.addOut('q', q)
+        self.pending = False
+        self.count = 0
+
+    def clock(self):
+        if self.pending:
+            self.count = (self.count + 1) & 15
+        self.pending = self.req.get() & 6
+        self.q.prepare(self.count)
+
+
+class HvGuardReturn(Logic):
+    """guard clause: an early return inside a conditional skips the rest of the body"""
+    def __init__(self, parent, name, a, en, q):
+        super().__init__(parent, name)
+        self.a = self.addIn('a', a)
+        self.en = self.addIn('en', en)
+        self.q = self.addOut('q', q)
+        self.total = 0
+
+    def clock(self):
+        if self.en.get() == 0:
+            return
+        self.total = (self.total + self.a.get()) & 63
+        self.q.prepare(self.total)
+
+
 class HvAccum(Logic):
     def __init__(self, parent, name, a, en, clr, q):
         super().__init__(parent, name)
@@ -612,6 +644,8 @@ def run(ctx, sm, facts):
         counts[r] = counts.get(r, 0) + 1
     for name, build, st, flt in (
             ('HvAccum', lambda D: D.make('HvAccum', 'dut', D.wire('a', 4), D.wire('en'), D.wire('clr'), D.wire('q', 8), rel=CASES_REL), ['acc', 'last'], None),
+            ('HvFlagState', lambda D: D.make('HvFlagState', 'dut', D.wire('req', 3), D.wire('q', 4), rel=CASES_REL), ['pending', 'count'], None),
+            ('HvGuardReturn', lambda D: D.make('HvGuardReturn', 'dut', D.wire('a', 3), D.wire('en'), D.wire('q', 6), rel=CASES_REL), ['total'], None),
             ('HvMatch', lambda D: D.make('HvMatch', 'dut', D.wire('go'), D.wire('x', 3), D.wire('y', 5), rel=CASES_REL), ['state'], None),
             ('HvUseBeforeSet', lambda D: D.make('HvUseBeforeSet', 'dut', D.wire('a', 3), D.wire('q', 8), rel=CASES_REL), ['s'], None),
             ('HvAugAssign', lambda D: D.make('HvAugAssign', 'dut', D.wire('a', 3), D.wire('en'), D.wire('q', 6), D.wire('p', 4), rel=CASES_REL), ['total', 'n'], None)):
